@@ -9,6 +9,7 @@ mod s_props;
 mod s_main;
 mod s_c10;
 mod s_c13;
+mod selftest;
 mod t_c08;
 mod t_c12;
 mod t_c18;
@@ -16,7 +17,7 @@ mod t_c19;
 
 use report::Report;
 
-fn t_catalogue(prop: &str) -> Option<Vec<tcommon::Scn>> {
+pub fn t_catalogue(prop: &str) -> Option<Vec<tcommon::Scn>> {
   match prop {
     "C08" => Some(t_c08::scenarios()),
     "C12" => Some(t_c12::scenarios()),
@@ -111,6 +112,10 @@ fn main() {
         .or_else(|| std::env::var("VERIF_TIER").ok())
         .unwrap_or_else(|| "quick".to_string());
       check(&prop, &tier)
+    }
+    Some("selftest") => {
+      rxverif_rt::exec::install_quiet_panic_hook();
+      selftest::run()
     }
     Some("replay") => replay(args.get(2).map(|s| s.as_str()).unwrap_or("")),
     _ => {
